@@ -35,9 +35,12 @@ MODELLED = ('sr/value_types.py: the 15 constructors (attribute writing + validat
             '_assert_value_type, _get_content_item_class, ContentItem._from_dataset_derived/_from_dataset_base, '
             'X.from_dataset, ContentSequence.from_sequence/_check_dataset/__init__ relationship rule; '
             'sr/coding.py CodedConcept.__init__/from_dataset/accessors; coplanarity as the exact rank test. '
-            'accept = parse-time checks alone; parse = the same followed by reading every accessor '
-            '(single-fault malformed stream).')
-STRATA = ['tree', 'code', 'code_from', 'scoord', 'scoord3d', 'malformed']
+            'accept = parse-time checks alone; parse = the same followed by reading every accessor; '
+            'parse2 = accept over the whole tree, then the accessors (faithful error precedence, multi-fault '
+            'malformed stream); ContentSequence(items, is_root, is_sr) / from_sequence(..., is_root, is_sr) in the '
+            'three kinds of sequence; ContentSequence.append/insert/extend/+=/__setitem__/__delitem__ (int and '
+            'slice)/find/get_nodes/index/__contains__ with the name look-up table.')
+STRATA = ['tree', 'code', 'code_from', 'scoord', 'scoord3d', 'malformed', 'seqmode', 'seqops', 'subclass']
 NOT_EXECUTED = ['near-tolerance coplanarity (deviation between 1e-7 and 1e-3)',
                 'non-ASCII text (model strings are ASCII)']
 RULE = ('tree: random content trees of depth <= 4 over all 15 value types (codes <=16/>16/URN/URL, ints, '
@@ -48,7 +51,11 @@ RULE = ('tree: random content trees of depth <= 4 over all 15 value types (codes
         'datasets with 0/1/2 code value attributes or missing meaning/designator; scoord / scoord3d: every '
         'graphic type x point count 0..8 x wrong dimension x open/closed x coplanar/non-coplanar; '
         'malformed: one guard violated per dataset (attribute deleted at any depth, value type swapped or '
-        'unknown, wrong class, relationship deleted/invalid, emptied sequences, odd graphic data). '
+        'unknown, wrong class, relationship deleted/invalid, emptied sequences, odd graphic data), and datasets '
+        'with 2-3 such faults in different nodes (error precedence); seqmode: 0-3 items x {root, SR, context, '
+        'invalid flag pair} through ContentSequence(...) and from_sequence(...); seqops: a content sequence '
+        'mutated by 1-8 random append/insert/extend/+=/set/del (int + slice, indices around both ends) calls, '
+        'then find per name, get_nodes, index, in. '
         'non-trivial = tree with >= 2 nodes or a rejected input; distinct by case hash')
 
 VTS = ['CODE', 'COMPOSITE', 'CONTAINER', 'DATE', 'DATETIME', 'IMAGE', 'NUM', 'PNAME', 'SCOORD',
@@ -320,6 +327,191 @@ def g_malformed(rng):
     return {'kind': 'malformed', 'tree': base, 'path': path, 'op': op, 'r': rng.randint(0, 10**6)}
 
 
+def _fault(rng, base):
+    def paths(n, p):
+        yield p
+        for i, k in enumerate(n['kids']):
+            yield from paths(k, p + [i])
+    return {'path': rng.choice(list(paths(base, []))),
+            'op': rng.choice(['del_required', 'del_any', 'del_nested', 'vt_other', 'vt_unknown', 'rel_del',
+                              'rel_bad', 'empty_seq', 'two_code_values', 'odd_graphic', 'bad_enum']),
+            'r': rng.randint(0, 10**6)}
+
+
+def g_precedence(rng):
+    """an accessor-time fault (bad enumerated value / odd graphic data / missing referenced UID) in one child
+    and a from_dataset-time fault in another: the parse-time error must win wherever the nodes are"""
+    late = g_tree(rng, 0, 0, False, False, ['SCOORD', 'SCOORD3D', 'TCOORD', 'IMAGE', 'COMPOSITE'])
+    early = g_tree(rng, 0, 0, False, False)
+    kids = [late, early] if rng.random() < 0.7 else [early, late]
+    if rng.random() < 0.4:
+        kids.insert(rng.randrange(3), g_tree(rng, 0, 1, False, False))
+    if rng.random() < 0.3:      # one level deeper
+        i = kids.index(late)
+        kids[i] = {'t': 'CONTAINER', 'name': g_code(rng), 'rel': rng.choice(RELS),
+                   'val': g_value(rng, 'CONTAINER', False), 'kids': [late]}
+    base = {'t': 'CONTAINER', 'name': g_code(rng), 'rel': rng.choice(RELS),
+            'val': g_value(rng, 'CONTAINER', False), 'kids': kids}
+
+    def path_of(n, target, p):
+        if n is target:
+            return p
+        for i, k in enumerate(n['kids']):
+            r = path_of(k, target, p + [i])
+            if r is not None:
+                return r
+        return None
+    f1 = {'path': path_of(base, late, []), 'r': rng.randint(0, 10**6),
+          'op': 'del_nested' if late['t'] in ('IMAGE', 'COMPOSITE') else rng.choice(['bad_enum', 'odd_graphic', 'bad_enum'])}
+    f2 = {'path': path_of(base, early, []), 'r': rng.randint(0, 10**6),
+          'op': rng.choice(['del_required', 'del_required', 'vt_unknown', 'rel_del', 'vt_other'])}
+    return dict(f1, kind='malformed', tree=base, more=[f2])
+
+
+def g_multifault(rng):
+    """2-3 faults in (mostly) different nodes of one tree: which error wins"""
+    if rng.random() < 0.5:
+        return g_precedence(rng)
+    base = g_tree(rng, 0, rng.choice([1, 2, 2]), top=False)
+    while tree_size(base) < 2:
+        base = g_tree(rng, 0, 2, top=False)
+    fs = [_fault(rng, base) for _ in range(rng.choice([2, 2, 3]))]
+    return dict(fs[0], kind='malformed', tree=base, more=fs[1:])
+
+
+SEQ_NAMES = [['111', '99X', 'alpha', None, 'cc'], ['111', '99X', 'alpha again', None, 'code'],
+             ['111', '99X', 'alpha', '2.0', 'cc'], ['222', '99X', 'beta', None, 'cc'],
+             ['111', 'DCM', 'gamma', None, 'code']]
+
+
+def g_seq_item(rng, mode, good=0.93):
+    """a small item; relationship / class chosen to suit the kind of sequence with probability `good`"""
+    t = rng.choice(['TEXT', 'TEXT', 'TEXT', 'NUM', 'CONTAINER', 'CODE', 'UIDREF'])
+    ok = rng.random() < good
+    if mode == 'root' and ok:
+        t = 'CONTAINER'
+    if t == 'TEXT':
+        val = {'s': rng.choice(['x', 'y', 'z'])}
+    elif t == 'NUM':
+        val = {'num': rng.choice([1, 2]), 'isf': False, 'unit': ['mm', 'UCUM', 'mm', None, 'cc'], 'qual': None}
+    elif t == 'UIDREF':
+        val = {'s': rng.choice(['1.2.3', '1.2.4'])}
+    else:
+        val = g_value(rng, t, False)
+    has_rel = (mode == 'sr') == ok
+    node = {'t': t, 'name': list(rng.choice(SEQ_NAMES)), 'rel': rng.choice(RELS) if has_rel else None,
+            'val': val, 'kids': []}
+    if rng.random() < 0.3:
+        node['kids'] = [{'t': 'TEXT', 'name': list(rng.choice(SEQ_NAMES)), 'rel': rng.choice(RELS),
+                         'val': {'s': 'k'}, 'kids': []}]
+    return node
+
+
+def g_seqmode(rng):
+    root, sr_ = rng.choice([(True, True), (False, True), (False, True), (False, False), (False, False), (True, False)])
+    mode = 'root' if root else ('sr' if sr_ else 'ctx')
+    n = rng.choice([0, 1, 1, 2, 3])
+    return {'kind': 'seqmode', 'root': root, 'sr': sr_,
+            'items': [g_seq_item(rng, mode, 1.0 if (root and not sr_) else 0.85) for _ in range(n)]}
+
+
+def g_seqops(rng):
+    root, sr_ = rng.choice([(False, True)] * 5 + [(False, False)] * 2 + [(True, True)])
+    mode = 'root' if root else ('sr' if sr_ else 'ctx')
+    init = [g_seq_item(rng, mode, 1.0) for _ in range(rng.choice([0, 1, 2, 3, 4]))]
+    n = len(init)
+    ops = []
+    for _ in range(rng.randint(1, 8)):
+        k = rng.choice(['append', 'append', 'insert', 'insert', 'set', 'set', 'del', 'del', 'extend', 'iadd',
+                        'setslice', 'delslice'])
+        idx = rng.randint(-n - 2, n + 2)
+        if k in ('append',):
+            ops.append([k, g_seq_item(rng, mode)])
+            n += 1
+        elif k == 'insert':
+            ops.append([k, idx, g_seq_item(rng, mode)])
+            n += 1
+        elif k == 'set':
+            ops.append([k, idx, g_seq_item(rng, mode)])
+        elif k == 'del':
+            ops.append([k, idx])
+            n = max(0, n - 1)
+        elif k in ('extend', 'iadd'):
+            l = [g_seq_item(rng, mode) for _ in range(rng.choice([0, 1, 2, 3]))]
+            ops.append([k, l])
+            n += len(l)
+        elif k == 'setslice':
+            l = [g_seq_item(rng, mode, 0.97) for _ in range(rng.choice([0, 1, 2]))]
+            ops.append([k, idx, rng.randint(-n - 2, n + 2), l])
+            n += len(l)
+        else:
+            ops.append([k, idx, rng.randint(-n - 2, n + 2)])
+    pool = init + [o[-1] for o in ops if o[0] in ('append', 'insert', 'set')]
+    probes = [rng.choice(pool) for _ in range(2)] if pool else []
+    probes.append(g_seq_item(rng, mode, 1.0))
+    return {'kind': 'seqops', 'root': root, 'sr': sr_, 'init': init, 'ops': ops,
+            'names': [list(x) for x in rng.sample(SEQ_NAMES, 3)], 'probes': probes}
+
+
+_SUBS = None
+
+
+def sub_table():
+    """{subclass of sr/content.py: (parent value-type class, does its from_dataset assert the value type)} read
+    off the current source (ast; raises on any from_dataset of unexpected shape)"""
+    global _SUBS
+    if _SUBS is None:
+        import ast
+        tree = ast.parse(open(os.path.join(common.REPO, 'src', 'highdicom', 'sr', 'content.py')).read())
+        out = {}
+        for n in tree.body:
+            if not isinstance(n, ast.ClassDef) or len(n.bases) != 1 or not isinstance(n.bases[0], ast.Name) \
+                    or n.bases[0].id not in CLASS.values():
+                continue
+            fd = [m for m in n.body if isinstance(m, ast.FunctionDef) and m.name == 'from_dataset']
+            if len(fd) != 1:
+                raise ValueError(f'{n.name}: expected one from_dataset')
+            calls = [ast.unparse(c.func) for c in ast.walk(fd[0]) if isinstance(c, ast.Call)]
+            if 'super()._from_dataset_base' not in calls or any(x.endswith('.from_dataset') for x in calls):
+                raise ValueError(f'{n.name}.from_dataset has changed shape: {calls}')
+            asserts = [c for c in ast.walk(fd[0]) if isinstance(c, ast.Call) and ast.unparse(c.func) == '_assert_value_type']
+            if asserts:
+                vt = _enum_attr(asserts[0].args[1])
+                if CLASS[vt] != n.bases[0].id or ast.unparse(asserts[0].args[0]) != 'dataset_copy':
+                    raise ValueError(f'{n.name}.from_dataset asserts {vt}, parent is {n.bases[0].id}')
+            out[n.name] = (n.bases[0].id, bool(asserts))
+        if len(out) < 10:
+            raise ValueError(f'only {len(out)} template content items found in sr/content.py')
+        _SUBS = out
+    return _SUBS
+
+
+# Defect D103 (found by this check, fixed in /repo f2e5a80): the from_dataset of the template content items of
+# sr/content.py skipped _assert_value_type.  The model takes "does it assert" from the source (sub_table); the oracle
+# demands rejection of a mismatching value type / missing required attribute whenever the source asserts, and would
+# only tolerate acceptance for a subclass whose source does not assert if that were a recorded OPEN finding.
+
+
+def g_subclass(rng):
+    subs = sorted(sub_table())
+    sub = rng.choice(subs)
+    parent_vt = [v for v, c in CLASS.items() if c == sub_table()[sub][0]][0]
+    t = parent_vt if rng.random() < 0.5 else rng.choice(VTS)
+    tree = g_tree(rng, 0, rng.choice([0, 0, 1]), False, False, [t])
+    tree['t'], tree['val'] = t, g_value(rng, t, False)      # g_tree may have turned it into a container
+    fault = None
+    if rng.random() < 0.45:
+        fault = rng.choice(REQUIRED[t] + ['ValueType', 'ConceptNameCodeSequence', 'RelationshipType'])
+    return {'kind': 'subclass', 'sub': sub, 'tree': tree, 'del': fault}
+
+
+def _sub_ds(c):
+    ds = plain(build(c['tree']))
+    if c['del'] is not None:
+        del ds[c['del']]
+    return ds
+
+
 def gen_cases(rng, tier):
     n = {'quick': 1, 'thorough': 12, 'search': 5}[tier]
     cases = []
@@ -392,6 +584,14 @@ def gen_cases(rng, tier):
                           'op': op, 'r': rng.randint(0, 10**6)})
     for _ in range(110 * n):
         cases.append(g_malformed(rng))
+    for _ in range(40 * n):
+        cases.append(g_multifault(rng))
+    for _ in range(40 * n):
+        cases.append(g_seqmode(rng))
+    for _ in range(70 * n):
+        cases.append(g_seqops(rng))
+    for _ in range(50 * n):
+        cases.append(g_subclass(rng))
     return cases
 
 
@@ -816,6 +1016,14 @@ def mutate(c, ds):
 def _mal_inputs(c):
     ds = plain(build(c['tree']))
     info = mutate(c, ds)
+    more = []
+    for f in c.get('more', []):
+        try:                   # a fault whose node an earlier fault removed is skipped
+            more.append(mutate(dict(f, tree=c['tree']), ds))
+        except (AttributeError, IndexError, KeyError):
+            pass
+    if c.get('more') is not None:
+        info['more'] = more
     return ds, info
 
 
@@ -868,7 +1076,63 @@ def run_impl(c):
         ds, info = r
         return [catch(_status_own, info['cls'], plain(ds)), catch(_parse_own, info['cls'], plain(ds)),
                 catch(_status_seq, [plain(ds)]), catch(_parse_seq, [plain(ds)])]
+    if k == 'seqmode':
+        items = catch(lambda: [build(t) for t in c['items']])
+        if isinstance(items, Err):
+            return items
+        st = catch(lambda: vtm.ContentSequence(items, is_root=c['root'], is_sr=c['sr']) is None or 'ok')
+        ob = catch(lambda: [obs_item(i) for i in vtm.ContentSequence.from_sequence(
+            [plain(i) for i in items], is_root=c['root'], is_sr=c['sr'])])
+        return [st, ob]
+    if k == 'seqops':
+        return catch(_seqops_impl, c)
+    if k == 'subclass':
+        import highdicom.sr.content as cm
+        ds = catch(_sub_ds, c)
+        if isinstance(ds, Err):
+            return ds
+
+        def f():
+            it = getattr(cm, c['sub']).from_dataset(ds)
+            assert type(it).__name__ == c['sub'], type(it).__name__
+            return 'ok'
+        return catch(f)
     raise ValueError(k)
+
+
+def _seqops_impl(c):
+    sr, vtm = _hd()
+    s = vtm.ContentSequence([build(t) for t in c['init']], is_root=c['root'], is_sr=c['sr'])
+    st = []
+    for op in c['ops']:
+        def f():
+            o = op[0]
+            if o == 'append':
+                s.append(build(op[1]))
+            elif o == 'insert':
+                s.insert(op[1], build(op[2]))
+            elif o == 'set':
+                s[op[1]] = build(op[2])
+            elif o == 'del':
+                del s[op[1]]
+            elif o == 'extend':
+                s.extend([build(t) for t in op[1]])
+            elif o == 'iadd':
+                s2 = s
+                s2 += [build(t) for t in op[1]]
+                assert s2 is s
+            elif o == 'setslice':
+                s[op[1]:op[2]] = [build(t) for t in op[3]]
+            elif o == 'delslice':
+                del s[op[1]:op[2]]
+            else:
+                raise RuntimeError(o)
+            return 'ok'
+        st.append(catch(f))
+    return [st, [obs_item(i) for i in s],
+            [catch(lambda: [obs_item(i) for i in s.find(_cc(sr, n))]) for n in c['names']],
+            catch(lambda: [obs_item(i) for i in s.get_nodes()]),
+            [[catch(lambda: int(s.index(build(p)))), build(p) in s] for p in c['probes']]]
 
 
 def _code_ds(c):
@@ -977,7 +1241,39 @@ def coq_term(c):
         if isinstance(r, Err):
             return None
         ds, info = r
-        return f'(run_parse {info["cls"]} {tree_coq(ds_tree(ds))})'
+        fn = 'run_parse2' if 'more' in info else 'run_parse'
+        return f'({fn} {info["cls"]} {tree_coq(ds_tree(ds))})'
+    b = lambda x: 'true' if x else 'false'
+    ql = lambda l: '[' + '; '.join(q_item(t) for t in l) + ']'
+    if k == 'seqmode':
+        return f'(run_seqmode {b(c["root"])} {b(c["sr"])} {ql(c["items"])})'
+    if k == 'subclass':
+        _hd()
+        ds = catch(_sub_ds, c)
+        if isinstance(ds, Err):
+            return None
+        parent, asserts = sub_table()[c['sub']]
+        return f'(run_sub {b(asserts)} {parent} {tree_coq(ds_tree(ds))})'
+    if k == 'seqops':
+        ops = []
+        for op in c['ops']:
+            o = op[0]
+            if o == 'append':
+                ops.append(f'OAppend {q_item(op[1])}')
+            elif o == 'insert':
+                ops.append(f'OInsert {zlit(op[1])} {q_item(op[2])}')
+            elif o == 'set':
+                ops.append(f'OSet {zlit(op[1])} {q_item(op[2])}')
+            elif o == 'del':
+                ops.append(f'ODel {zlit(op[1])}')
+            elif o in ('extend', 'iadd'):
+                ops.append(f'OExtend {ql(op[1])}')
+            elif o == 'setslice':
+                ops.append(f'OSetSlice {zlit(op[1])} {zlit(op[2])} {ql(op[3])}')
+            else:
+                ops.append(f'ODelSlice {zlit(op[1])} {zlit(op[2])}')
+        return (f'(run_seqops {b(c["root"])} {b(c["sr"])} {ql(c["init"])} [' + '; '.join(ops) + '] ['
+                + '; '.join(q_code(n) for n in c['names']) + f'] {ql(c["probes"])})')
     raise ValueError(k)
 
 
@@ -1151,6 +1447,18 @@ def oracle(c, out):
         ds, info = _mal_inputs(c)
         st_own, own, st_seq, seq = out
         op = info['op']
+        if 'more' in info:
+            faults = [info] + info['more']
+            if st_own == 'ok' and st_seq == 'ok' and not isinstance(own, Err) and isinstance(seq, Err):
+                return f'from_dataset result readable but the same item from from_sequence is not: {seq}'
+            if any(f['op'] == 'empty_seq' for f in faults):
+                return None           # may have removed the node of another fault
+            for f in faults:
+                if f['op'] in ('del_required', 'vt_unknown', 'rel_del', 'rel_bad') and not isinstance(st_seq, Err):
+                    return f'from_sequence accepted a tree with fault {f}'
+                if f['op'] in ('del_required', 'vt_unknown') and f['depth'] == 0 and not isinstance(st_own, Err):
+                    return f'from_dataset accepted a dataset with fault {f}'
+            return None
         if st_own == 'ok' and isinstance(own, Err) and op in ('none',):
             return f'accessors of a parsed item raised {own}'
         if op == 'del_required' and info['depth'] == 0:
@@ -1186,7 +1494,137 @@ def oracle(c, out):
             if d:
                 return d
         return None
+    if k == 'seqmode':
+        if isinstance(out, Err):
+            return f'admissible items refused by the constructors: {out}'
+        st, ob = out
+        want = _mode_verdict(c['root'], c['sr'], c['items'])
+        if want is None:
+            if st != 'ok':
+                return f'ContentSequence refused items that suit its kind: {st}'
+            exp = [exp_item(t) for t in c['items']]
+            return None if not isinstance(ob, Err) and _first_diff(ob, exp, 'from_sequence') is None else \
+                f'from_sequence(is_root={c["root"]}, is_sr={c["sr"]}): {ob if isinstance(ob, Err) else _first_diff(ob, exp)}'
+        if st != Err(want):
+            return f'ContentSequence(is_root={c["root"]}, is_sr={c["sr"]}) gave {st}, the rule says {want}'
+        if ob != Err(want):
+            return f'from_sequence(is_root={c["root"]}, is_sr={c["sr"]}) gave {ob}, the rule says {want}'
+        return None
+    if k == 'subclass':
+        parent, asserts = sub_table()[c['sub']]
+        t, dl = c['tree']['t'], c['del']
+        if dl in ('ValueType', 'ConceptNameCodeSequence'):
+            return None if out == Err('AttributeError') else f'{c["sub"]}.from_dataset without {dl}: {out}'
+        want = 'ok'
+        if CLASS[t] != parent:
+            want = Err('ValueError')
+        elif dl in REQUIRED[t]:
+            want = Err('AttributeError')
+        if out == want:
+            return None
+        return f'{c["sub"]}.from_dataset of a {t} dataset (deleted: {dl}) gave {out}, expected {want}'
+    if k == 'seqops':
+        want = _seqops_reference(c)
+        if isinstance(out, Err) or isinstance(want, Err):
+            return None if out == want else f'sequence construction gave {out}, the rule says {want}'
+        st, final, finds, nodes, probes = out
+        wst, wfinal, wfinds, wnodes, wprobes = want
+        if st != wst:
+            return f'outcomes of the calls {st}, expected {wst}'
+        d = _first_diff(final, wfinal, 'items after the calls')
+        if d:
+            return d
+        for n, got, w in zip(c['names'], finds, wfinds):
+            if isinstance(got, Err) or sorted(map(repr, got)) != sorted(map(repr, w)):
+                return f'find({n[:4]}) returned {got if isinstance(got, Err) else len(got)} item(s), the sequence holds {len(w)} with that name'
+        if isinstance(nodes, Err) or _first_diff(nodes, wnodes, 'get_nodes'):
+            return f'get_nodes: {nodes if isinstance(nodes, Err) else _first_diff(nodes, wnodes)}'
+        if probes != wprobes:
+            return f'index / in gave {probes}, expected {wprobes}'
+        return None
     return f'unknown kind {k}'
+
+
+def _item_verdict(root, sr_, t):
+    """exception class with which a sequence of this kind must refuse the item (None = welcome)"""
+    if root:
+        return 'AttributeError' if t['rel'] is not None else (None if t['t'] == 'CONTAINER' else 'TypeError')
+    if sr_:
+        return 'AttributeError' if t['rel'] is None else None
+    return 'AttributeError' if t['rel'] is not None else None
+
+
+def _mode_verdict(root, sr_, items):
+    if root and not sr_:
+        return 'ValueError'
+    for t in items:
+        v = _item_verdict(root, sr_, t)
+        if v:
+            return v
+    return None
+
+
+def _blank(e):
+    cls, name, rel, val, kids = e
+    bc = lambda c: None if c is None else [c[0], c[1], '', c[3]]
+    if cls == 'CodeContentItem':
+        val = bc(val)
+    elif cls == 'NumContentItem':
+        val = [val[0], val[1], bc(val[2]), bc(val[3])]
+    return [cls, bc(name), rel, val, [_blank(k) for k in kids]]
+
+
+def _seqops_reference(c):
+    """plain-python-list reference of the documented ContentSequence behaviour"""
+    root, sr_ = c['root'], c['sr']
+    v = _mode_verdict(root, sr_, c['init'])
+    if v:
+        return Err(v)
+    lst = [exp_item(t) for t in c['init']]
+    st = []
+    for op in c['ops']:
+        o = op[0]
+        new = op[-1] if o in ('extend', 'iadd', 'setslice') else ([op[-1]] if o in ('append', 'insert', 'set') else [])
+        if o in ('set', 'del') and not -len(lst) <= op[1] < len(lst):
+            st.append(Err('IndexError'))
+            continue
+        if o in ('extend', 'iadd'):            # item by item
+            r = 'ok'
+            for t in new:
+                bad = _item_verdict(root, sr_, t)
+                if bad:
+                    r = Err(bad)
+                    break
+                lst.append(exp_item(t))
+            st.append(r)
+            continue
+        bad = next((b for b in (_item_verdict(root, sr_, t) for t in new) if b), None)
+        if bad:
+            st.append(Err(bad))
+            continue
+        e = [exp_item(t) for t in new]
+        if o == 'append':
+            lst.append(e[0])
+        elif o == 'insert':
+            lst.insert(op[1], e[0])
+        elif o == 'set':
+            lst[op[1]] = e[0]
+        elif o == 'del':
+            del lst[op[1]]
+        elif o == 'setslice':
+            lst[op[1]:op[2]] = e
+        elif o == 'delslice':
+            del lst[op[1]:op[2]]
+        st.append('ok')
+    key = lambda n: (n[0], n[1], n[3])
+    finds = [[i for i in lst if key(i[1]) == key(n)] for n in c['names']]
+    nodes = [i for i in lst if i[4]]
+    probes = []
+    blanked = [_blank(i) for i in lst]
+    for p_ in c['probes']:
+        e = _blank(exp_item(p_))       # coded concepts compare equal whatever their meaning
+        probes.append([blanked.index(e), True] if e in blanked else [Err('ValueError'), False])
+    return [st, lst, finds, nodes, probes]
 
 
 def nontrivial(c, out):
